@@ -12,7 +12,9 @@ func (s *State) AssignParallel(targets []Atom, vals []Lin) {
 		return
 	}
 	temps := make([]Atom, len(targets))
+	congs := make([]Cong, len(targets))
 	for i := range targets {
+		congs[i] = s.CongOfExpr(vals[i])
 		temps[i] = s.eng.tempAtom(i, s.eng.atoms[targets[i]].rng)
 		s.Forget(temps[i])
 		v := s.Subst(vals[i])
@@ -29,6 +31,13 @@ func (s *State) AssignParallel(targets []Atom, vals []Lin) {
 	}
 	for i, t := range targets {
 		s.Rename(temps[i], t)
+	}
+	// the congruence of the assigned value survives even when its definition
+	// did not (the old value of a target occurred in it)
+	for i, t := range targets {
+		if _, isDef := s.def[t]; !isDef && congs[i].ok() && congs[i].M < 1<<30 {
+			s.addCong(t, congs[i])
+		}
 	}
 }
 
